@@ -171,6 +171,13 @@ def mech_tags(ins, ops):
         tags.append("pre_without_imem")
     if any(d["k"] == "imm" and d["w"] == 3 for d in ops) or any(d["k"] == "emem_abs" for d in ops):
         tags.append("has_20bit")
+    if ins.opcode in (0x44, 0x45, 0x46, 0x4C, 0x4D, 0x4E) and ops and ops[0]["k"] == "reg":
+        # README rows: 44/4C r2,r' - 45/4D r3,r' - 46/4E r1,r1': the text cannot express an opcode whose size class is
+        # not the destination register's own class (only then is "same text, other opcode" unavoidable)
+        from ..refisa import W
+        cls = {0x44: 2, 0x4C: 2, 0x45: 3, 0x4D: 3, 0x46: 1, 0x4E: 1}[ins.opcode]
+        if W.get(ops[0]["name"]) != cls:
+            tags.append("regpair_class_not_destination_class")
     return sorted(set(tags))
 
 
